@@ -44,7 +44,8 @@ def other_values(ref, pr, typ, key, cur):
     pool = ref.literals() + ref.digit_instances() + universe.NAMES
     vals = [pr.to_path_value(key, v) for v in ref.accepted(typ, i, pool) if v not in ("*", ">")]
     if ref.templates[typ][i][1] is None:
-        vals = ["other", "my_hero"]
+        # free text: also characters that mean something in a Sid string (query, uri, or-list, glob)
+        return [v for v in ["other", "my_hero", "what?", "x?%s=y" % key, "a:b", "a,b", "ab*", "ab c", ">"] if v != cur]
     return [v for v in vals if v != cur][:2] or ["zz"]
 
 
